@@ -200,10 +200,786 @@ theorem Sim.listdir_nonroot {s : MemState} {fs : FS} (h : Sim s fs) (ht : FS.Tre
     unfold parentKey
     by_cases hq : q = []
     · subst hq
-      have : ¬ ([] : Key) = k := fun e => hk e.symm
-      simp [this]
+      simp [hk]
     · simp [hq]
   · left
     simp [hd]
+
+end Liquer
+
+namespace Liquer
+
+/-! ### preservation by the non-recursive operations -/
+
+theorem ancestors_parent_mem {k : Key} (hk : k ≠ []) (q : Key) :
+    q ∈ ancestors (parentKey k) ++ (if (parentKey k).isEmpty then [] else [parentKey k]) ↔ q ∈ ancestors k := by
+  have hlen : (parentKey k).length + 1 = k.length := by
+    unfold parentKey
+    rw [List.length_dropLast]
+    have : k.length ≠ 0 := fun e => hk (List.eq_nil_of_length_eq_zero e)
+    omega
+  have hpk : parentKey k <+: k := List.dropLast_prefix k
+  rw [List.mem_append, mem_ancestors, mem_ancestors]
+  constructor
+  · rintro (⟨h1, h2, h3⟩ | h)
+    · refine ⟨h1, h2.trans hpk, ?_⟩
+      intro e; subst e
+      have := h2.length_le; omega
+    · by_cases he : (parentKey k).isEmpty = true
+      · simp [he] at h
+      · simp only [he, Bool.false_eq_true, ↓reduceIte, List.mem_cons, List.not_mem_nil, or_false] at h
+        subst h
+        refine ⟨by simpa using he, hpk, ?_⟩
+        intro e
+        have := congrArg List.length e
+        omega
+  · rintro ⟨h1, h2, h3⟩
+    have hp : q <+: parentKey k := prefix_dropLast_of_ne h2 h3
+    by_cases e : q = parentKey k
+    · right
+      have : (parentKey k).isEmpty = false := by rw [← e]; simpa using h1
+      simp [this, e]
+    · left; exact ⟨h1, hp, e⟩
+
+theorem dataOf_eq_none_of_get {fs : FS} {k : Key} (h : fs.get k = none ∨ fs.get k = some .dir) :
+    dataOf fs k = none ∧ metaOf fs k = none := by
+  unfold dataOf metaOf
+  rcases h with h | h <;> simp [h]
+
+theorem sim_mkdirs {s : MemState} {fs : FS} (h : Sim s fs) (ks : List Key)
+    (hnf : ∀ a ∈ ks, fs.get a = none ∨ fs.get a = some .dir) :
+    Sim { s with directories := ks.foldl setAdd s.directories } (fs.mkdirs ks) := by
+  refine ⟨?_, ?_, ?_⟩
+  · intro q
+    simp only
+    rw [mem_foldl_setAdd, FS.get_mkdirs, h.dirs]
+    by_cases hq : q ∈ ks
+    · rcases hnf q hq with e | e
+      · simp [hq, e]
+      · simp [e]
+    · simp [hq]
+  · intro q
+    simp only
+    rw [h.data]
+    unfold dataOf
+    rw [FS.get_mkdirs]
+    by_cases hq : q ∈ ks ∧ fs.get q = none
+    · simp [hq]
+    · simp [hq]
+  · intro q
+    simp only
+    rw [h.mdata]
+    unfold metaOf
+    rw [FS.get_mkdirs]
+    by_cases hq : q ∈ ks ∧ fs.get q = none
+    · simp [hq]
+    · simp [hq]
+
+theorem FS.get_mkdirs_congr (fs : FS) (ks ks' : List Key) (h : ∀ q, q ∈ ks ↔ q ∈ ks') (q : Key) :
+    (fs.mkdirs ks).get q = (fs.mkdirs ks').get q := by
+  rw [FS.get_mkdirs, FS.get_mkdirs]
+  simp only [h q]
+
+theorem sim_setFile {s : MemState} {fs : FS} (h : Sim s fs) (k : Key) (d : Data) (m : UMeta)
+    (hk : fs.get k ≠ some .dir) :
+    Sim { s with data := alSet s.data k d, metadata := alSet s.metadata k m } (fs.set k (.file d m)) := by
+  refine ⟨?_, ?_, ?_⟩
+  · intro q
+    simp only
+    rw [FS.get_set, h.dirs]
+    by_cases e : k = q
+    · subst e; simp [hk]
+    · simp [e]
+  · intro q
+    simp only
+    rw [alGet_set, h.data]
+    unfold dataOf
+    rw [FS.get_set]
+    by_cases e : k = q <;> simp [e]
+  · intro q
+    simp only
+    rw [alGet_set, h.mdata]
+    unfold metaOf
+    rw [FS.get_set]
+    by_cases e : k = q <;> simp [e]
+
+theorem sim_store {s : MemState} {fs : FS} (h : Sim s fs) (k : Key) (d : Data) (m : UMeta)
+    (hwf : wfOp fs (.store k d m) = true) :
+    Sim (Mem.store s k d m) (specOps.step fs (.store k d m)) := by
+  simp only [wfOp, Bool.and_eq_true, Bool.not_eq_true', List.isEmpty_eq_false_iff, List.all_eq_true] at hwf
+  obtain ⟨⟨hk, hnd⟩, hanc⟩ := hwf
+  have hnf : ∀ a ∈ ancestors k, fs.get a = none ∨ fs.get a = some .dir := fun a ha => notFile_cases (hanc a ha)
+  have hkd : fs.get k ≠ some .dir := by
+    intro e; simp [FS.isDirB, e] at hnd
+  have h1 : Sim (Mem.makedir s (parentKey k)) (fs.mkdirs (ancestors k)) := by
+    unfold Mem.makedir
+    refine (sim_mkdirs h _ ?_).congr (fun q => FS.get_mkdirs_congr fs _ _ (fun q => (ancestors_parent_mem hk q).symm) q)
+    intro a ha
+    exact hnf a ((ancestors_parent_mem hk a).mp ha)
+  have hk1 : (fs.mkdirs (ancestors k)).get k ≠ some .dir := by
+    rw [FS.get_mkdirs]
+    have : k ∉ ancestors k := fun hm => ancestors_ne_self hm rfl
+    simpa [this] using hkd
+  exact sim_setFile h1 k d _ hk1
+
+theorem sim_storeMeta {s : MemState} {fs : FS} (h : Sim s fs) (k : Key) (m : UMeta) {d0 : Data} {m0 : UMeta}
+    (hk : fs.get k = some (.file d0 m0)) :
+    Sim (Mem.storeMeta s k m) (fs.set k (.file d0 m)) := by
+  have hd : alGet s.data k = some d0 := by rw [h.data]; simp [dataOf, hk]
+  have h2 := sim_setFile h k d0 m (by rw [hk]; simp)
+  refine ⟨h2.dirs, ?_, h2.mdata⟩
+  intro q
+  have := h2.data q
+  simp only [Mem.storeMeta] at this ⊢
+  rw [← this, alGet_set]
+  by_cases e : k = q
+  · subst e; simp [hd]
+  · simp [e]
+
+theorem sim_remove {s : MemState} {fs : FS} (h : Sim s fs) (k : Key) : Sim (Mem.remove s k) (fs.erase k) := by
+  refine ⟨?_, ?_, ?_⟩
+  · intro q
+    simp only [Mem.remove, List.mem_filter, bne_iff_ne, ne_eq]
+    rw [FS.get_erase, h.dirs]
+    by_cases e : q = k <;> simp [e]
+  · intro q
+    simp only [Mem.remove]
+    rw [alGet_erase, h.data]
+    unfold dataOf
+    rw [FS.get_erase]
+    by_cases e : q = k <;> simp [e]
+  · intro q
+    simp only [Mem.remove]
+    rw [alGet_erase, h.mdata]
+    unfold metaOf
+    rw [FS.get_erase]
+    by_cases e : q = k <;> simp [e]
+
+theorem sim_dropDir {s : MemState} {fs : FS} (h : Sim s fs) (k : Key) (hk : fs.get k = none ∨ fs.get k = some .dir) :
+    Sim { s with directories := s.directories.filter (· != k) } (fs.erase k) := by
+  obtain ⟨hd, hm⟩ := dataOf_eq_none_of_get hk
+  refine ⟨?_, ?_, ?_⟩
+  · intro q
+    simp only [List.mem_filter, bne_iff_ne, ne_eq]
+    rw [FS.get_erase, h.dirs]
+    by_cases e : q = k <;> simp [e]
+  · intro q
+    simp only
+    rw [h.data]
+    unfold dataOf at hd ⊢
+    rw [FS.get_erase]
+    by_cases e : q = k
+    · subst e; simp [hd]
+    · simp [e]
+  · intro q
+    simp only
+    rw [h.mdata]
+    unfold metaOf at hm ⊢
+    rw [FS.get_erase]
+    by_cases e : q = k
+    · subst e; simp [hm]
+    · simp [e]
+
+/-- the last phase of `removedir`: an empty directory is dropped -/
+theorem mem_removedir_tail {s : MemState} {fs : FS} (h : Sim s fs) (ht : FS.Tree fs) (k : Key) (hk : k ≠ [])
+    (hd : fs.get k = some .dir) (hc : (fs.children k).isEmpty = true) :
+    (match Mem.listdir s k with
+      | none => (.error .other : Except StoreErr MemState)
+      | some l => .ok (if l.isEmpty then { s with directories := s.directories.filter (· != k) } else s)) =
+      .ok { s with directories := s.directories.filter (· != k) } := by
+  have hdir : fs.isDirB k = true := by simp [FS.isDirB, hd]
+  rcases h.listdir_nonroot ht k hk with ⟨_, hf⟩ | ⟨l, hl, _, hp⟩
+  · rw [hdir] at hf; cases hf
+  · rw [hl]
+    have : l.isEmpty = true := by rw [hp.isEmpty_eq]; exact hc
+    simp [this]
+
+theorem sim_removedir_nonrec {s : MemState} {fs : FS} (h : Sim s fs) (ht : FS.Tree fs) (k : Key) (n : Nat) (hk : k ≠ [])
+    (hd : fs.get k = some .dir) (hc : (fs.children k).isEmpty = true) :
+    ∃ s', Mem.removedirFuel (n + 1) s k false = .ok s' ∧ Sim s' (fs.erase k) := by
+  have hke : k.isEmpty = false := by simpa using hk
+  refine ⟨{ s with directories := s.directories.filter (· != k) }, ?_, sim_dropDir h k (Or.inr hd)⟩
+  simp only [Mem.removedirFuel, hke, Bool.false_eq_true, ↓reduceIte]
+  exact mem_removedir_tail h ht k hk hd hc
+
+end Liquer
+
+namespace Liquer
+
+/-! ### the recursive `removedir` -/
+
+/-- `q` lies at or below one of the children `k ++ [c]`, `c ∈ cs` -/
+def underAny (k : Key) (cs : List Str) (q : Key) : Bool := cs.any (fun c => (k ++ [c]).isPrefixOf q)
+
+/-- the specification state with the subtrees of the children `cs` of `k` removed -/
+def removeSubs (fs : FS) (k : Key) (cs : List Str) : FS := fs.filter (fun kv => !(underAny k cs kv.1))
+
+/-- size of the subtree at `k` (fuel measure) -/
+def subSize (fs : FS) (k : Key) : Nat := (fs.filter (fun kv => k.isPrefixOf kv.1)).length
+
+theorem underAny_iff (k : Key) (cs : List Str) (q : Key) : underAny k cs q = true ↔ ∃ c ∈ cs, (k ++ [c]) <+: q := by
+  unfold underAny
+  simp [List.any_eq_true]
+
+theorem underAny_append (k : Key) (cs : List Str) (nm : Str) (q : Key) :
+    underAny k (cs ++ [nm]) q = (underAny k cs q || (k ++ [nm]).isPrefixOf q) := by
+  unfold underAny
+  simp [List.any_append]
+
+theorem removeSubs_get (fs : FS) (k : Key) (cs : List Str) (q : Key) :
+    (removeSubs fs k cs).get q = if underAny k cs q then none else fs.get q := by
+  unfold removeSubs
+  rw [FS.get_filter_key (fun q => !(underAny k cs q))]
+  cases underAny k cs q <;> simp
+
+theorem removeSubs_tree {fs : FS} (ht : FS.Tree fs) (k : Key) (cs : List Str) : FS.Tree (removeSubs fs k cs) := by
+  unfold removeSubs
+  apply ht.filter (fun q => !(underAny k cs q))
+  intro q hq _ a ha
+  simp only [Bool.not_eq_true', ← Bool.not_eq_true, underAny_iff] at hq ⊢
+  rintro ⟨c, hc, hp⟩
+  exact hq ⟨c, hc, hp.trans (ancestors_prefix ha)⟩
+
+theorem length_filter_lt_of_imp {α : Type} (l : List α) (p q : α → Bool) (himp : ∀ x ∈ l, p x = true → q x = true)
+    (x : α) (hx : x ∈ l) (hq : q x = true) (hp : p x = false) : (l.filter p).length < (l.filter q).length := by
+  induction l with
+  | nil => cases hx
+  | cons y l ih =>
+    have hle : (l.filter p).length ≤ (l.filter q).length := by
+      rw [← List.countP_eq_length_filter, ← List.countP_eq_length_filter]
+      exact List.countP_mono_left (fun z hz => himp z (List.mem_cons_of_mem _ hz))
+    rcases List.mem_cons.mp hx with e | e
+    · subst e
+      rw [List.filter_cons_of_neg (by simp [hp]), List.filter_cons_of_pos hq]
+      simp only [List.length_cons]; omega
+    · have := ih (fun z hz => himp z (List.mem_cons_of_mem _ hz)) e
+      by_cases hpy : p y = true
+      · rw [List.filter_cons_of_pos hpy, List.filter_cons_of_pos (himp y List.mem_cons_self hpy)]
+        simp only [List.length_cons]; omega
+      · rw [List.filter_cons_of_neg hpy]
+        by_cases hqy : q y = true
+        · rw [List.filter_cons_of_pos hqy]; simp only [List.length_cons]; omega
+        · rw [List.filter_cons_of_neg hqy]; exact this
+
+theorem child_not_prefix_parent (k : Key) (c : Str) : ¬ (k ++ [c]) <+: k := by
+  intro h
+  have := h.length_le
+  simp at this
+  omega
+
+theorem child_prefix_child {k : Key} {c c' : Str} (h : (k ++ [c']) <+: (k ++ [c])) : c' = c := by
+  have := h.eq_of_length_le (by simp)
+  simpa using this
+
+/-- a name listed below `k` is a bound key `k ++ [name]` -/
+theorem mem_children_iff (fs : FS) (k : Key) (nm : Str) :
+    nm ∈ fs.children k ↔ (fs.get (k ++ [nm])).isSome = true := by
+  rw [FS.children_eq, List.mem_map]
+  constructor
+  · rintro ⟨q, hq, rfl⟩
+    simp only [List.mem_filter, Bool.and_eq_true, Bool.not_eq_true', List.isEmpty_eq_false_iff, beq_iff_eq] at hq
+    have : k ++ [keyName q] = q := by
+      have := key_eq_parent_name hq.2.1
+      unfold parentKey at this
+      rw [hq.2.2] at this
+      exact this.symm
+    rw [this]
+    exact (FS.mem_keys_iff fs q).mp hq.1
+  · intro h
+    refine ⟨k ++ [nm], ?_, by simp [keyName]⟩
+    simp only [List.mem_filter, Bool.and_eq_true, Bool.not_eq_true', List.isEmpty_eq_false_iff, beq_iff_eq]
+    exact ⟨(FS.mem_keys_iff fs _).mpr h, by simp, by simp⟩
+
+theorem children_nodup {fs : FS} (ht : FS.Tree fs) (k : Key) : (fs.children k).Nodup := by
+  rw [List.nodup_iff_count]
+  intro nm
+  by_cases h : nm ∈ fs.children k
+  · have hs := (mem_children_iff fs k nm).mp h
+    have := (spec_listed_once ht hs).2.2
+    simp only [parentKey, keyName, List.dropLast_concat, List.getLast?_append, List.getLast?_singleton, Option.some_or,
+      Option.getD_some] at this
+    omega
+  · rw [List.count_eq_zero_of_not_mem h]; omega
+
+/-- the specification state after `removedir k` (recursive), in terms of `get` -/
+theorem get_removeRec (fs : FS) (k q : Key) :
+    FS.get (fs.filter (fun kv => !(k.isPrefixOf kv.1))) q = if k <+: q then none else fs.get q := by
+  rw [FS.get_filter_key (fun q => !(k.isPrefixOf q))]
+  by_cases h : k <+: q
+  · have : k.isPrefixOf q = true := List.isPrefixOf_iff_prefix.mpr h
+    simp [this, h]
+  · have : k.isPrefixOf q = false := by rw [← Bool.not_eq_true, List.isPrefixOf_iff_prefix]; exact h
+    simp [this, h]
+
+/-- the statement proved by induction on the fuel -/
+def RemovedirRec (n : Nat) : Prop :=
+  ∀ (s : MemState) (fs : FS) (k : Key), Sim s fs → FS.Tree fs → k ≠ [] → fs.get k = some .dir → subSize fs k < n →
+    ∃ s', Mem.removedirFuel n s k true = .ok s' ∧ Sim s' (fs.filter (fun kv => !(k.isPrefixOf kv.1)))
+
+theorem fold_children (n : Nat) (IH : RemovedirRec n) (fs0 : FS) (k : Key) (ht0 : FS.Tree fs0) (_hk : k ≠ [])
+    (hd : fs0.get k = some .dir) (hsub : subSize fs0 k < n + 1) :
+    ∀ (rest done : List Str), (done ++ rest).Nodup → (∀ c ∈ done ++ rest, c ∈ fs0.children k) →
+      ∀ st, Sim st (removeSubs fs0 k done) →
+      ∃ st', rest.foldlM (fun st nm =>
+                let c := k ++ [nm]
+                if Mem.isDir st c then Mem.removedirFuel n st c true else .ok (Mem.remove st c)) st = .ok st' ∧
+             Sim st' (removeSubs fs0 k (done ++ rest)) := by
+  intro rest
+  induction rest with
+  | nil =>
+    intro done _ _ st hst
+    exact ⟨st, rfl, by simpa using hst⟩
+  | cons nm rest ih =>
+    intro done hnd hmem st hst
+    have hnm : nm ∈ fs0.children k := hmem nm (by simp)
+    have hpres : (fs0.get (k ++ [nm])).isSome = true := (mem_children_iff fs0 k nm).mp hnm
+    have hnotdone : nm ∉ done := by
+      intro h
+      have := (List.nodup_append.mp hnd).2.2 nm h nm (by simp)
+      exact this rfl
+    have hcur_tree := removeSubs_tree ht0 k done
+    have hund : underAny k done (k ++ [nm]) = false := by
+      rw [← Bool.not_eq_true, underAny_iff]
+      rintro ⟨c', hc', hp⟩
+      exact hnotdone (child_prefix_child hp ▸ hc')
+    have hcur_get : (removeSubs fs0 k done).get (k ++ [nm]) = fs0.get (k ++ [nm]) := by
+      rw [removeSubs_get, hund]; simp
+    have hassoc : done ++ nm :: rest = (done ++ [nm]) ++ rest := by simp
+    rw [List.foldlM_cons]
+    simp only
+    rw [hst.isDir]
+    by_cases hdir : (removeSubs fs0 k done).isDirB (k ++ [nm]) = true
+    · -- a sub-directory: recursive call with the remaining fuel
+      simp only [hdir, ↓reduceIte]
+      have hcd : (removeSubs fs0 k done).get (k ++ [nm]) = some .dir := by
+        simpa [FS.isDirB] using hdir
+      have hlt : subSize (removeSubs fs0 k done) (k ++ [nm]) < n := by
+        have : subSize (removeSubs fs0 k done) (k ++ [nm]) < subSize fs0 k := by
+          unfold subSize removeSubs
+          rw [List.filter_filter]
+          apply length_filter_lt_of_imp fs0 _ _ _ (k, .dir) (FS.mem_of_get hd)
+          · simp
+          · have : (k ++ [nm]).isPrefixOf k = false := by
+              rw [← Bool.not_eq_true, List.isPrefixOf_iff_prefix]; exact child_not_prefix_parent k nm
+            simp [this]
+          · intro x _ hx
+            simp only [Bool.and_eq_true, List.isPrefixOf_iff_prefix] at hx ⊢
+            exact (List.prefix_append k [nm]).trans hx.1
+        omega
+      obtain ⟨st1, hrun, hsim1⟩ := IH st (removeSubs fs0 k done) (k ++ [nm]) hst hcur_tree (by simp) hcd hlt
+      rw [hrun]
+      simp only [bind, Except.bind]
+      have hsim1' : Sim st1 (removeSubs fs0 k (done ++ [nm])) := by
+        apply hsim1.congr
+        intro q
+        rw [get_removeRec, removeSubs_get, removeSubs_get, underAny_append]
+        by_cases h1 : (k ++ [nm]) <+: q
+        · have : (k ++ [nm]).isPrefixOf q = true := List.isPrefixOf_iff_prefix.mpr h1
+          simp [h1, this]
+        · have : (k ++ [nm]).isPrefixOf q = false := by rw [← Bool.not_eq_true, List.isPrefixOf_iff_prefix]; exact h1
+          simp [h1, this]
+      rw [hassoc]
+      exact ih (done ++ [nm]) (by rw [← hassoc]; exact hnd) (by rw [← hassoc]; exact hmem) st1 hsim1'
+    · -- a file: `remove`
+      simp only [hdir, Bool.false_eq_true, ↓reduceIte, bind, Except.bind]
+      have hnd' : (removeSubs fs0 k done).get (k ++ [nm]) ≠ some .dir := by
+        intro e; apply hdir; simp [FS.isDirB, e]
+      have hsim1' : Sim (Mem.remove st (k ++ [nm])) (removeSubs fs0 k (done ++ [nm])) := by
+        apply (sim_remove hst (k ++ [nm])).congr
+        intro q
+        rw [FS.get_erase, removeSubs_get, removeSubs_get, underAny_append]
+        by_cases h1 : (k ++ [nm]) <+: q
+        · have hp : (k ++ [nm]).isPrefixOf q = true := List.isPrefixOf_iff_prefix.mpr h1
+          simp only [hp, Bool.or_true, ↓reduceIte]
+          by_cases e : q = k ++ [nm]
+          · simp [e]
+          · simp only [e, ↓reduceIte]
+            -- a bound key strictly below the file would need the file to be a directory
+            have hanc : (k ++ [nm]) ∈ ancestors q := (mem_ancestors _ _).mpr ⟨by simp, h1, fun e' => e e'.symm⟩
+            have hq : (removeSubs fs0 k done).get q = none := by
+              cases hg : (removeSubs fs0 k done).get q with
+              | none => rfl
+              | some x =>
+                exfalso
+                exact hnd' (hcur_tree.anc q (by simp [hg]) _ hanc)
+            rw [removeSubs_get] at hq
+            exact hq.symm
+        · have hp : (k ++ [nm]).isPrefixOf q = false := by rw [← Bool.not_eq_true, List.isPrefixOf_iff_prefix]; exact h1
+          have e : q ≠ k ++ [nm] := fun e => h1 (e ▸ List.prefix_refl _)
+          simp [hp, e]
+      rw [hassoc]
+      exact ih (done ++ [nm]) (by rw [← hassoc]; exact hnd) (by rw [← hassoc]; exact hmem) _ hsim1'
+
+theorem removedirRec_all (n : Nat) : RemovedirRec n := by
+  induction n with
+  | zero => intro s fs k _ _ _ _ h; omega
+  | succ n IH =>
+    intro s fs k hsim ht hk hd hsub
+    have hke : k.isEmpty = false := by simpa using hk
+    have hdir : fs.isDirB k = true := by simp [FS.isDirB, hd]
+    rcases hsim.listdir_nonroot ht k hk with ⟨_, hf⟩ | ⟨names, hl, _, hperm⟩
+    · rw [hdir] at hf; cases hf
+    · have hnd : names.Nodup := (hperm.nodup_iff).mpr (children_nodup ht k)
+      obtain ⟨st, hfold, hst⟩ := fold_children n IH fs k ht hk hd hsub names [] (by simpa using hnd)
+        (fun c hc => hperm.mem_iff.mp (by simpa using hc)) s (by
+          apply hsim.congr; intro q; rw [removeSubs_get]; simp [underAny])
+      simp only [List.nil_append] at hst
+      -- the directory itself
+      have htree := removeSubs_tree ht k names
+      have hkd : (removeSubs fs k names).get k = some .dir := by
+        rw [removeSubs_get]
+        have : underAny k names k = false := by
+          rw [← Bool.not_eq_true, underAny_iff]
+          rintro ⟨c, _, hp⟩
+          exact child_not_prefix_parent k c hp
+        simp [this, hd]
+      have hempty : ((removeSubs fs k names).children k).isEmpty = true := by
+        rw [FS.children_isEmpty_iff]
+        intro q hq hqne hqk
+        have hq' := hq
+        rw [removeSubs_get] at hq'
+        have hqe : k ++ [keyName q] = q := by
+          have := key_eq_parent_name hqne
+          unfold parentKey at this
+          rw [hqk] at this
+          exact this.symm
+        by_cases hu : underAny k names q = true
+        · simp [hu] at hq'
+        · simp only [hu, Bool.false_eq_true, ↓reduceIte] at hq'
+          apply hu
+          rw [underAny_iff]
+          refine ⟨keyName q, hperm.mem_iff.mpr ((mem_children_iff fs k _).mpr (by rw [hqe]; exact hq')), ?_⟩
+          rw [hqe]
+          exact List.prefix_refl _
+      refine ⟨{ st with directories := st.directories.filter (· != k) }, ?_, ?_⟩
+      · simp only [Mem.removedirFuel, hke, Bool.false_eq_true, ↓reduceIte, hl, hfold]
+        exact mem_removedir_tail hst htree k hk hkd hempty
+      · apply (sim_dropDir hst k (Or.inr hkd)).congr
+        intro q
+        rw [get_removeRec, FS.get_erase, removeSubs_get]
+        by_cases e : q = k
+        · subst e; simp
+        · simp only [e, ↓reduceIte]
+          by_cases hu : underAny k names q = true
+          · obtain ⟨c, _, hp⟩ := (underAny_iff k names q).mp hu
+            have : k <+: q := (List.prefix_append k [c]).trans hp
+            simp [hu, this]
+          · simp only [hu, Bool.false_eq_true, ↓reduceIte]
+            by_cases hkq : k <+: q
+            · simp only [hkq, ↓reduceIte]
+              cases hg : fs.get q with
+              | none => rfl
+              | some x =>
+                exfalso
+                have hanc : k ∈ ancestors q := (mem_ancestors k q).mpr ⟨hk, hkq, fun e' => e e'.symm⟩
+                obtain ⟨c, hc1, hc2, hc3⟩ := child_on_way hanc
+                have hs : (fs.get q).isSome = true := by simp [hg]
+                have hcs : (fs.get c).isSome = true := by
+                  rcases hc1 with e1 | e1
+                  · rw [e1]; exact hs
+                  · simp [ht.anc q hs c e1]
+                have hce : k ++ [keyName c] = c := by
+                  have := key_eq_parent_name hc2
+                  unfold parentKey at this
+                  rw [hc3] at this
+                  exact this.symm
+                apply hu
+                rw [underAny_iff]
+                refine ⟨keyName c, hperm.mem_iff.mpr ((mem_children_iff fs k _).mpr (by rw [hce]; exact hcs)), ?_⟩
+                rw [hce]
+                rcases hc1 with e1 | e1
+                · rw [e1]; exact List.prefix_refl _
+                · exact ancestors_prefix e1
+            · simp [hkq]
+
+theorem subSize_le (fs : FS) (k : Key) : subSize fs k ≤ fs.length := List.length_filter_le _ _
+
+theorem sim_removedir_rec {s : MemState} {fs : FS} (h : Sim s fs) (ht : FS.Tree fs) (k : Key) (hk : k ≠ [])
+    (hd : fs.get k = some .dir) :
+    ∃ s', Mem.removedir s k true = .ok s' ∧ Sim s' (fs.filter (fun kv => !(k.isPrefixOf kv.1))) := by
+  unfold Mem.removedir
+  apply removedirRec_all _ s fs k h ht hk hd
+  have : (Mem.keys s).length = fs.length := by
+    rw [(h.keys_perm ht).length_eq, List.length_map]
+  have := subSize_le fs k
+  omega
+
+end Liquer
+
+namespace Liquer
+
+/-! ### every well-formed operation, whole histories -/
+
+theorem sim_step {s : MemState} {fs : FS} (h : Sim s fs) (ht : FS.Tree fs) (op : StoreOp) (hwf : wfOp fs op = true) :
+    ∃ s', memOps.apply s op = .ok s' ∧ Sim s' (specOps.step fs op) := by
+  cases op with
+  | store k d m => exact ⟨_, rfl, sim_store h k d m hwf⟩
+  | storeMeta k m =>
+    simp only [wfOp] at hwf
+    obtain ⟨d0, m0, hk⟩ := isFile_cases hwf
+    refine ⟨_, rfl, ?_⟩
+    simp only [StoreOps.step, StoreOps.apply, specOps, hk]
+    exact sim_storeMeta h k m hk
+  | remove k =>
+    refine ⟨_, rfl, ?_⟩
+    simp only [StoreOps.step, StoreOps.apply, specOps]
+    exact sim_remove h k
+  | removedir k r =>
+    simp only [wfOp, Bool.and_eq_true, Bool.not_eq_true', List.isEmpty_eq_false_iff, beq_iff_eq, Bool.or_eq_true] at hwf
+    obtain ⟨⟨hk, hd⟩, hr⟩ := hwf
+    have hke : k.isEmpty = false := by simpa using hk
+    cases r with
+    | true =>
+      obtain ⟨s', h1, h2⟩ := sim_removedir_rec h ht k hk hd
+      refine ⟨s', h1, ?_⟩
+      simpa only [StoreOps.step, StoreOps.apply, specOps, hke, Bool.false_eq_true, ↓reduceIte] using h2
+    | false =>
+      have hc : (fs.children k).isEmpty = true := by simpa using hr
+      obtain ⟨s', h1, h2⟩ := sim_removedir_nonrec h ht k (Mem.keys s).length hk hd hc
+      refine ⟨s', h1, ?_⟩
+      simpa only [StoreOps.step, StoreOps.apply, specOps, hke, Bool.false_eq_true, ↓reduceIte, hc] using h2
+  | makedir k =>
+    simp only [wfOp, Bool.and_eq_true, Bool.not_eq_true', List.isEmpty_eq_false_iff, List.all_eq_true] at hwf
+    obtain ⟨hk, hall⟩ := hwf
+    have hke : k.isEmpty = false := by simpa using hk
+    refine ⟨_, rfl, ?_⟩
+    simp only [StoreOps.step, StoreOps.apply, specOps, Mem.makedir, hke, Bool.false_eq_true, ↓reduceIte]
+    exact sim_mkdirs h _ (fun a ha => notFile_cases (hall a ha))
+
+theorem sim_run {s : MemState} {fs : FS} (h : Sim s fs) (ht : FS.Tree fs) (hist : List StoreOp) (hwf : wfHist fs hist = true) :
+    Sim (memOps.run s hist) (specOps.run fs hist) := by
+  induction hist generalizing s fs with
+  | nil => exact h
+  | cons op rest ih =>
+    simp only [wfHist, Bool.and_eq_true] at hwf
+    obtain ⟨s', h1, h2⟩ := sim_step h ht op hwf.1
+    simp only [StoreOps.run, List.foldl_cons]
+    have : memOps.step s op = s' := by simp only [StoreOps.step, h1]
+    rw [this]
+    exact ih h2 (spec_tree_step ht op hwf.1) hwf.2
+
+/-- on a well-formed history no operation of the memory store fails -/
+theorem mem_step_ok {s : MemState} {fs : FS} (h : Sim s fs) (ht : FS.Tree fs) (op : StoreOp) (hwf : wfOp fs op = true) :
+    ∃ s', memOps.apply s op = .ok s' := by
+  obtain ⟨s', h1, _⟩ := sim_step h ht op hwf
+  exact ⟨s', h1⟩
+
+/-! ### keys made of non-empty components -/
+
+def NormalFS (fs : FS) : Prop := ∀ q, (fs.get q).isSome = true → ∀ c ∈ q, c ≠ []
+
+theorem step_get_isSome (fs : FS) (op : StoreOp) (q : Key) (h : ((specOps.step fs op).get q).isSome = true) :
+    (fs.get q).isSome = true ∨ q <+: op.key := by
+  cases op with
+  | store k d m =>
+    simp only [StoreOps.step, StoreOps.apply, specOps, StoreOp.key] at h ⊢
+    rw [FS.get_set, FS.get_mkdirs] at h
+    by_cases e : k = q
+    · right; rw [e]; exact List.prefix_refl _
+    · by_cases ha : q ∈ ancestors k
+      · right; exact ancestors_prefix ha
+      · left; simpa [e, ha] using h
+  | storeMeta k m =>
+    simp only [StoreOp.key]
+    cases hg : fs.get k with
+    | none => left; simpa only [StoreOps.step, StoreOps.apply, specOps, hg] using h
+    | some n =>
+      cases n with
+      | dir => left; simpa only [StoreOps.step, StoreOps.apply, specOps, hg] using h
+      | file d0 m0 =>
+        simp only [StoreOps.step, StoreOps.apply, specOps, hg] at h
+        rw [FS.get_set] at h
+        by_cases e : k = q
+        · right; rw [e]; exact List.prefix_refl _
+        · left; simpa [e] using h
+  | remove k =>
+    simp only [StoreOps.step, StoreOps.apply, specOps] at h
+    rw [FS.get_erase] at h
+    left
+    by_cases e : q = k
+    · simp [e] at h
+    · simpa [e] using h
+  | removedir k r =>
+    left
+    by_cases hk : k.isEmpty = true
+    · simpa only [StoreOps.step, StoreOps.apply, specOps, hk, ↓reduceIte] using h
+    · cases r with
+      | true =>
+        simp only [StoreOps.step, StoreOps.apply, specOps, hk, Bool.false_eq_true, ↓reduceIte] at h
+        rw [get_removeRec] at h
+        by_cases e : k <+: q
+        · simp [e] at h
+        · simpa [e] using h
+      | false =>
+        by_cases hc : (fs.children k).isEmpty = true
+        · simp only [StoreOps.step, StoreOps.apply, specOps, hk, hc, Bool.false_eq_true, ↓reduceIte] at h
+          rw [FS.get_erase] at h
+          by_cases e : q = k
+          · simp [e] at h
+          · simpa [e] using h
+        · simpa only [StoreOps.step, StoreOps.apply, specOps, hk, hc, Bool.false_eq_true, ↓reduceIte] using h
+  | makedir k =>
+    simp only [StoreOps.step, StoreOps.apply, specOps, StoreOp.key] at h ⊢
+    rw [FS.get_mkdirs] at h
+    by_cases ha : q ∈ ancestors k ++ (if k.isEmpty then [] else [k])
+    · right
+      rcases List.mem_append.mp ha with h1 | h1
+      · exact ancestors_prefix h1
+      · split at h1
+        · simp at h1
+        · simp at h1; rw [h1]; exact List.prefix_refl _
+    · left
+      have hn : ¬ (q ∈ ancestors k ++ (if k.isEmpty then [] else [k]) ∧ fs.get q = none) := fun x => ha x.1
+      simpa only [hn, ↓reduceIte] using h
+
+theorem normal_step {fs : FS} (hn : NormalFS fs) (op : StoreOp) (hk : ∀ c ∈ op.key, c ≠ []) : NormalFS (specOps.step fs op) := by
+  intro q hq c hc
+  rcases step_get_isSome fs op q hq with h | h
+  · exact hn q h c hc
+  · exact hk c (h.subset hc)
+
+theorem normal_run {fs : FS} (hn : NormalFS fs) (hist : List StoreOp) (hk : ∀ op ∈ hist, ∀ c ∈ op.key, c ≠ []) :
+    NormalFS (specOps.run fs hist) := by
+  induction hist generalizing fs with
+  | nil => exact hn
+  | cons op rest ih =>
+    simp only [StoreOps.run, List.foldl_cons]
+    exact ih (normal_step hn op (hk op List.mem_cons_self)) (fun o ho => hk o (List.mem_cons_of_mem _ ho))
+
+theorem normal_nil : NormalFS [] := by intro q hq; simp [FS.get_nil] at hq
+
+/-! ### observations modulo the order of listings -/
+
+def listingEquiv : Except StoreErr (Option (List Str)) → Except StoreErr (Option (List Str)) → Prop
+  | .ok (some a), .ok (some b) => a.Perm b
+  | .ok none, .ok none => True
+  | .error e, .error e' => e = e'
+  | _, _ => False
+
+def keysEquiv : Except StoreErr (List Key) → Except StoreErr (List Key) → Prop
+  | .ok a, .ok b => a.Perm b
+  | .error e, .error e' => e = e'
+  | _, _ => False
+
+/-- two observations of a key agree: equal answers, listings equal as multisets -/
+structure ObsEquiv (a b : KeyObs) : Prop where
+  contains : a.contains = b.contains
+  isDir : a.isDir = b.isDir
+  bytes : a.bytes = b.bytes
+  metadata : a.metadata = b.metadata
+  listdir : listingEquiv a.listdir b.listdir
+
+theorem Sim.listdir_root {s : MemState} {fs : FS} (h : Sim s fs) (ht : FS.Tree fs) (hn : NormalFS fs) :
+    ∃ l, Mem.listdir s [] = some l ∧ l.Perm (fs.children []) := by
+  refine ⟨_, rfl, ?_⟩
+  rw [List.perm_ext_iff_of_nodup (nodup_eraseDups' _) (children_nodup ht [])]
+  intro c
+  rw [List.mem_eraseDups, mem_children_iff, List.mem_filterMap]
+  simp only [List.nil_append]
+  constructor
+  · rintro ⟨q, hq, hf⟩
+    cases q with
+    | nil => simp at hf
+    | cons c' t =>
+      by_cases hc' : c'.isEmpty = true
+      · simp [hc'] at hf
+      · simp only [hc', Bool.false_eq_true, ↓reduceIte, Option.some.injEq] at hf
+        subst hf
+        have hs := (h.mem_keys _).mp hq
+        cases t with
+        | nil => exact hs
+        | cons x t =>
+          have : [c'] ∈ ancestors (c' :: x :: t) := by
+            rw [mem_ancestors]
+            exact ⟨by simp, ⟨x :: t, rfl⟩, by simp⟩
+          simp [ht.anc _ hs _ this]
+  · intro hs
+    have hne : c ≠ [] := hn [c] hs c (by simp)
+    refine ⟨[c], (h.mem_keys _).mpr hs, ?_⟩
+    have : c.isEmpty = false := by simpa using hne
+    simp [this]
+
+theorem Sim.obsEquiv {s : MemState} {fs : FS} (h : Sim s fs) (ht : FS.Tree fs) (hn : NormalFS fs) (k : Key) :
+    ObsEquiv (memOps.obs s k) (specOps.obs fs k) := by
+  refine ⟨?_, ?_, ?_, ?_, ?_⟩
+  · simp only [StoreOps.obs, memOps, specOps, h.contains]
+  · simp only [StoreOps.obs, memOps, specOps, h.isDir]
+  · simp only [StoreOps.obs, memOps]; exact h.getBytes k
+  · simp only [StoreOps.obs, memOps]; exact h.getMeta ht k
+  · simp only [StoreOps.obs, memOps, specOps]
+    by_cases hk : k = []
+    · subst hk
+      obtain ⟨l, hl, hp⟩ := h.listdir_root ht hn
+      rw [hl]
+      simp only [FS.isDirB, List.isEmpty_nil, Bool.true_or, ↓reduceIte]
+      exact hp
+    · rcases h.listdir_nonroot ht k hk with ⟨h1, h2⟩ | ⟨l, h1, h2, h3⟩
+      · rw [h1, h2]; simp [listingEquiv]
+      · rw [h1, h2]; simpa [listingEquiv] using h3
+
+theorem Sim.keysEquiv {s : MemState} {fs : FS} (h : Sim s fs) (ht : FS.Tree fs) :
+    keysEquiv (memOps.keys s) (specOps.keys fs) := by
+  simp only [memOps, specOps]
+  exact h.keys_perm ht
+
+end Liquer
+
+namespace Liquer
+
+/-! ### the abstraction function -/
+
+/-- the specification state a `MemoryStore` state stands for -/
+def absMem (s : MemState) : FS :=
+  s.directories.map (fun k => (k, Node.dir)) ++
+  s.data.map (fun kd => (kd.1, Node.file kd.2 ((alGet s.metadata kd.1).getD default)))
+
+theorem FS.get_append (a b : FS) (k : Key) : FS.get (a ++ b) k = (FS.get a k).or (FS.get b k) := by
+  induction a with
+  | nil => simp [FS.get_nil]
+  | cons kv a ih =>
+    obtain ⟨q, n⟩ := kv
+    rw [List.cons_append, FS.get_cons, FS.get_cons, ih]
+    by_cases h : q = k <;> simp [h]
+
+theorem FS.get_dirs (ds : List Key) (k : Key) :
+    FS.get (ds.map (fun k => (k, Node.dir))) k = if k ∈ ds then some .dir else none := by
+  induction ds with
+  | nil => simp [FS.get_nil]
+  | cons d ds ih =>
+    rw [List.map_cons, FS.get_cons, ih]
+    by_cases h : d = k
+    · simp [h]
+    · have : ¬ k = d := fun e => h e.symm
+      simp [h, this]
+
+theorem FS.get_files (f : Key → Data → Node) (l : List (Key × Data)) (k : Key) :
+    FS.get (l.map (fun kd => (kd.1, f kd.1 kd.2))) k = (alGet l k).map (f k) := by
+  induction l with
+  | nil => simp [FS.get_nil, alGet_nil]
+  | cons kd l ih =>
+    obtain ⟨q, d⟩ := kd
+    rw [List.map_cons, FS.get_cons, alGet_cons, ih]
+    by_cases h : q = k
+    · subst h; simp
+    · simp [h]
+
+/-- under the simulation, the abstraction of the memory state binds every key as the specification state does -/
+theorem absMem_get {s : MemState} {fs : FS} (h : Sim s fs) (k : Key) : (absMem s).get k = fs.get k := by
+  unfold absMem
+  rw [FS.get_append, FS.get_dirs, FS.get_files (fun q d => Node.file d ((alGet s.metadata q).getD default)),
+    h.data, h.mdata]
+  unfold dataOf metaOf
+  cases hg : fs.get k with
+  | none =>
+    have : k ∉ s.directories := fun hm => by have := (h.dirs k).mp hm; rw [hg] at this; cases this
+    simp [this]
+  | some n =>
+    cases n with
+    | dir =>
+      have : k ∈ s.directories := (h.dirs k).mpr hg
+      simp [this]
+    | file d m =>
+      have : k ∉ s.directories := fun hm => by have := (h.dirs k).mp hm; rw [hg] at this; cases this
+      simp [this]
 
 end Liquer
